@@ -192,7 +192,8 @@ struct TrackModel
 
 // applies setter #k with generated arguments to the track and to the model's `given` snapshot.
 // returns a description; sets `threw` when the library rejected the call (model unchanged).
-inline std::string apply_setter(size_t k, S& s, Ctx& ctx, e::engine_schema schema, TrackModel& m, bool& threw, int serial)
+inline std::string apply_setter(size_t k, S& s, Ctx& ctx, e::engine_schema schema, TrackModel& m, bool& threw, int serial,
+                                const std::string* other_tracks_path = nullptr)
 {
     bool v2 = is_v2(schema);
     dj::track& t = m.handle;
@@ -265,6 +266,13 @@ inline std::string apply_setter(size_t k, S& s, Ctx& ctx, e::engine_schema schem
             if (dot != std::string::npos && (slash == std::string::npos || dot > slash))
                 p = s.coin() ? p.substr(0, dot) : p.substr(0, dot + 1);
             ctx.label("set_relative_path:no-extension");
+        }
+        if (other_tracks_path && s.below(4) == 0)
+        {
+            // the path ANOTHER track of the library holds at this moment: the schema may refuse it (UNIQUE) or keep both; either way the
+            // other track stays what it was, which the comparison of every track after the step decides
+            p = *other_tracks_path;
+            ctx.label("set_relative_path:path-of-another-track");
         }
         g.relative_path = p;
         desc += " " + hexs(p);
@@ -395,7 +403,10 @@ inline void prop_c06(const vf::Case& c, Ctx& ctx)
         bool via_second = s.below(3) == 0;
         if (via_second)
             std::swap(tracks[ti].handle, alt[ti]);
-        std::string d = apply_setter(k, s, ctx, schema, tracks[ti], threw, ++serial);
+        std::optional<std::string> clash;
+        if (tracks.size() >= 2)
+            clash = tracks[(ti + 1) % tracks.size()].handle.relative_path();
+        std::string d = apply_setter(k, s, ctx, schema, tracks[ti], threw, ++serial, clash ? &*clash : nullptr);
         if (via_second)
         {
             std::swap(tracks[ti].handle, alt[ti]);
